@@ -165,13 +165,13 @@ CaseOfBundle(b, id) ==
         w   == WireOf(b)
     IN [op |-> "req", id |-> id, method |-> w.method, uri |-> w.uri, version |-> w.version,
         headers |-> w.headers, body |-> w.body, cfg |-> b.cfg, script |-> b.script, sign |-> dir,
-        leak |-> Family \in {"leak_defects", "leak_scripts", "leak_sigmut", "leak_long"}
+        leak |-> Family \in {"leak_defects", "leak_scripts", "leak_sigmut", "leak_long", "leak_cfg", "leak_midnight"}
                  \/ (Family = "cfgmix" /\ id[9] = 2)]
 
 FirstRuleOf(b) == Q(EnvOfWire(MkX(b.L)), b.cfg).err.rule
 
 \* ---------------------------------------------------------------- material
-Methods == <<B("GET"), B("POST"), B("DELETE"), B("PROPFIND"), B("M-SEARCH")>>
+Methods == <<B("GET"), B("POST"), B("DELETE"), B("PROPFIND"), B("M-SEARCH"), B("get"), B("pAtCh")>>
 Versions == <<"HTTP/1.1", "HTTP/0.9", "HTTP/1.0", "HTTP/2.0", "HTTP/3.0">>
 Paths   == <<B("/"), B("/a//b/./c/../d"), B("/a%20b/%7Ec/"), B("/a/b"), B("/%E2%82%AC/x*y"), B("/a/b/")>>
 LongQuery == Join([i \in 1..36 |-> <<97 + (i % 3)>> \o <<61>> \o Dec((i * 7) % 36, 2)], <<AMP>>)
@@ -264,7 +264,16 @@ SpellRecipe(w, k) ==
       \* the same target in absolute form (what a client sends to a proxy; the http crate keeps scheme and authority)
       [] k = 13 -> << [k |-> "uripre", v |-> B("https://example.amazonaws.com")] >>
       [] k = 14 -> << [k |-> "uripre", v |-> B("HTTP://other.example:8080")] >>
-NumSpell == 14
+      \* empty entries in the Authorization parameter list (doubled and trailing commas) are skipped
+      [] k = 15 -> << [k |-> "hdrs", v |-> [h \in 1..Len(w.headers) |->
+                                             IF LowerSeq(w.headers[h][1]) = bAuthorization
+                                             THEN <<w.headers[h][1], Join(SplitOn(w.headers[h][2], 44), <<44, 44>>) \o <<44>> >>
+                                             ELSE w.headers[h]]] >>
+      [] k = 16 -> << [k |-> "hdrs", v |-> [h \in 1..Len(w.headers) |->
+                                             IF LowerSeq(w.headers[h][1]) = bAuthorization
+                                             THEN <<w.headers[h][1], LET parts == Split2(w.headers[h][2], 32) IN parts[1] \o B(" , ,") \o parts[2]>>
+                                             ELSE w.headers[h]]] >>
+NumSpell == 16
 
 \* C01: structural single-component mutations of the rich request
 StructMut(w, k) ==
@@ -360,6 +369,9 @@ AddNano(i, n) ==
     IF t < 0 THEN LET j == AddSec(i, -1) IN <<j[1], j[2], t + 1000000000>>
     ELSE IF t >= 1000000000 THEN LET j == AddSec(i, 1) IN <<j[1], j[2], t - 1000000000>>
     ELSE <<i[1], i[2], t>>
+LeakCfgs == << <<B("us-east-1"), B("s3")>>, <<B("us-east-1"), B("S3")>>, <<B("us-east-1"), B("sts")>>, <<B("aws-global"), B("iam")>>,
+              <<B("us-gov-west-1"), B("execute-api")>>, <<B("cn-north-1"), B("s3-object-lambda")>>, <<B("local"), B("test")>>,
+              <<B("us-east-1"), B("dynamodb")>> >>
 ExpiresValues == << B("1"), B("60"), B("900"), B("3600"), B("86400"), B("604800"), B("0"), B("-1"), B("abc") >>
 ExpiresAges == << -1200, -901, -900, -899, -300, -61, -59, 0, 59, 899, 900, 901 >>
 FracNows == << Inst(2015, 8, 30, 12, 36, 0, 900000000), Inst(2015, 8, 30, 12, 36, 0, 500000000), Inst(2015, 8, 30, 12, 36, 0, 1),
@@ -415,7 +427,10 @@ ContentTypes == << B("application/x-www-form-urlencoded"),
                    B("Application/X-WWW-Form-Urlencoded"),
                    B("application/x-www-form-urlencoded; charset=latin1"),
                    B("application/x-www-form-urlencoded; charset="),
-                   B("multipart/form-data; boundary=x") >>
+                   B("multipart/form-data; boundary=x"),
+                   \* not a form: the charset parameter is nobody's business, known or not
+                   B("text/plain; charset=klingon"), B("application/json; charset=utf8mb4"),
+                   B("application/x-www-form-urlencoded-v2; charset=foobar") >>
 
 \* ---------------------------------------------------------------- C19: repeated authentication inputs
 TsA == B("20150830T123600Z")
@@ -451,6 +466,11 @@ DupCases == <<
     WithPost(HdrB, << [k |-> "hdrset", h |-> 3, v |-> bAlgorithm \o B(" Credential=") \o CredOf(B("AKIDEXAMPLE"))
                                                     \o B(", SignedHeaders=host;x-amz-date, SignedHeaders=host, Signature=") \o bSIG] >>,
              [signed |-> <<B("host"), B("x-amz-date")>>]),
+    \* a parameter name with blanks before '=' is another name: it never replaces the real one
+    WithPost(HdrB, << [k |-> "hdrset", h |-> 3, v |-> bAlgorithm \o B(" Credential=") \o CredOf(B("AKIDEXAMPLE"))
+                                                    \o B(", SignedHeaders=host;x-amz-date, Signature=") \o bSIG \o B(", Signature =00")] >>, NoOver),
+    WithPost(HdrB, << [k |-> "hdrset", h |-> 3, v |-> bAlgorithm \o B(" Signature =00, Credential =") \o CredOf(B("WRONG")) \o B(", Credential=") \o CredOf(B("AKIDEXAMPLE"))
+                                                    \o B(", SignedHeaders =host, SignedHeaders=host;x-amz-date, Signature=") \o bSIG] >>, NoOver),
     \* two X-Amz-Date headers: the first one counts (both are in the signed block)
     WithPost(HdrB, << [k |-> "hdrins", at |-> 3, name |-> B("X-Amz-Date"), v |-> TsB] >>, [ts |-> TsA]),
     WithPost(HdrB, << [k |-> "hdrins", at |-> 2, name |-> B("X-Amz-Date"), v |-> TsB] >>, [ts |-> TsA]),
@@ -548,7 +568,11 @@ DupCases == <<
 \* ---------------------------------------------------------------- C08 material
 CharsetLabels == SetToSeq(Utf8Labels) \o SetToSeq(OtherKnownLabels)
                  \o << B("foobar"), B("utf-9"), <<>>, B(" UTF-8 "), B("\"utf-8\""), B("utf-8;"), B("x-unknown"), B("\""), B("\"\""), B("'") >>
-CharsetBodies == << <<>>, B("a=1&b=%20"), <<97, 61, 255>>, <<97>>, <<254, 255, 0, 97>> >>
+CharsetBodies == << <<>>, B("a=1&b=%20"), <<97, 61, 255>>,
+                    <<0, 216, 97, 0>>,                       \* UTF-16LE: lone high surrogate; UTF-16BE: two ordinary units
+                    <<97, 0, 61, 0, 49, 0>>,                 \* "a=1" in UTF-16LE
+                    <<97>>, <<254, 255, 0, 97>>,
+                    B("a=1&bb=2") >>                         \* 8 ASCII bytes: decodable as UTF-16 (to something else)
 AuthSet(v) == [k |-> "hdrset", h |-> 3, v |-> v]
 LongA(n) == [i \in 1..n |-> 97]
 Degenerate == <<
@@ -640,14 +664,18 @@ Dim(k) ==
       \* Bound 0: URL and body lists of <= 1 component, bodies as sent; 1: three lists (incl. the same name in both)
       \* with body variants and post-signing body flips; 2: every pair of lists of <= 2 components
       [] Family = "fold"     -> V(CASE Bound = 0 -> <<2, 7, 7, Len(ContentTypes), 2, 1, 1>>
-                                    [] Bound = 1 -> <<2, 3, 3, 6, 3, 7, 3>>
-                                    [] Bound = 3 -> <<1, 3, 3, 1, 3, 7, 1>>     \* a small slice for the query property
+                                    [] Bound = 1 -> <<2, 3, 3, 6, 3, 8, 3>>
+                                    [] Bound = 3 -> <<1, 3, 3, 1, 3, 8, 1>>     \* a small slice for the query property
                                     [] OTHER -> <<2, 43, 43, Len(ContentTypes), 2, 1, 2>>, k)
       [] Family = "dup"      -> V(<<Len(DupCases)>>, k)
       \* carrier, folding, requirement kind, which header it concerns, is that header signed
-      [] Family = "reqfold"  -> V(<<2, 2, 6, 4, 2>>, k)
+      [] Family = "reqfold"  -> V(<<2, 2, 6, 4, 2, 3>>, k)
       \* carrier, component, shift, length
       [] Family = "leak_long" -> V(<<2, 6, 2, 3>>, k)
+      \* carrier, server region/service configuration, what is wrong with the request
+      [] Family = "leak_cfg" -> V(<<2, Len(LeakCfgs), 4>>, k)
+      \* carrier, midnight case, what is wrong with the request
+      [] Family = "leak_midnight" -> V(<<2, Len(MidnightCases), 3>>, k)
       \* carrier, X-Amz-Expires value, where it travels, age of the request
       [] Family = "expires"  -> V(<<2, Len(ExpiresValues), 2, Len(ExpiresAges)>>, k)
       \* carrier, server instant with a fraction, probe, rendering
@@ -665,7 +693,7 @@ Dim(k) ==
       [] Family = "suite"    -> V(<<Len(Wires), 2, 2>>, k)
       \* request, key, position, variant (1 plain lower-case guess, 2 upper-case guess, 3 logger enabled at Trace level)
       [] Family = "ct"       -> V(<<Len(CtReqs), IF Bound = 0 THEN 1 ELSE 2, Len(CtPositions), 3>>, k)
-      [] Family = "charsets" -> V(<<Len(CharsetLabels), IF Bound = 0 THEN 3 ELSE Len(CharsetBodies), 2>>, k)
+      [] Family = "charsets" -> V(<<Len(CharsetLabels), IF Bound = 0 THEN 5 ELSE Len(CharsetBodies), 2>>, k)
       [] Family = "degenerate" -> V(<<Len(Degenerate), 2>>, k)
       [] Family = "passthru" -> V(<<2, Len(Methods), Len(Versions), Len(HdrSets), 3, 2>>, k)
 
@@ -783,6 +811,7 @@ BundleOf ==
                           [] idx[6] = 4 -> <<239, 187, 191>> \o body0 \o B("&z=1")            \* UTF-8 byte-order mark: data
                           [] idx[6] = 5 -> <<255, 254>> \o body0                              \* UTF-16 byte-order mark: not UTF-8
                           [] idx[6] = 6 -> body0 \o <<10>>                                    \* a trailing line feed is data
+                          [] idx[6] = 8 -> (IF body0 = <<>> THEN <<>> ELSE body0 \o <<AMP>>) \o B("s=1;t=2;;u")   \* ';' does not separate
                           [] idx[6] = 7 -> B("z=") \o <<13, 10>> \o (IF body0 = <<>> THEN <<>> ELSE <<AMP>> \o body0) \o <<13, 10>>
                 L1   == [b.L EXCEPT !.method = B("POST"), !.query = FoldList(idx[2]), !.body = body,
                                     !.hdrs = @ \o (IF ct = <<>> THEN <<>> ELSE << <<B("Content-Type"), ct>> >>)]
@@ -801,8 +830,10 @@ BundleOf ==
                 base  == IF idx[1] = 1 THEN <<B("host"), B("x-amz-date")>> ELSE <<B("host")>>
                 L1    == [b.L EXCEPT !.method = B("POST"), !.body = B("a=1"), !.query = B("b=2"),
                                      !.hasToken = TRUE, !.token = TokenV,
+                                     \* idx[6]: the header the requirement concerns has its value / an empty value / blanks
                                      !.hdrs = @ \o << <<B("Content-Type"), B("application/x-www-form-urlencoded")>>,
-                                                      <<B("Content-Length"), B("3")>>, <<B("X-Amz-Meta-A"), B("1")>> >>]
+                                                      <<B("Content-Length"), IF idx[4] = 1 /\ idx[6] > 1 THEN (IF idx[6] = 2 THEN <<>> ELSE B("  ")) ELSE B("3")>>,
+                                                      <<B("X-Amz-Meta-A"), IF idx[4] = 3 /\ idx[6] > 1 THEN (IF idx[6] = 2 THEN <<>> ELSE B("  ")) ELSE B("1")>> >>]
             IN [b EXCEPT !.L = [L1 EXCEPT !.signed = SortLex(base \o (IF idx[5] = 1 THEN <<LowerSeq(n)>> ELSE <<>>))],
                          !.cfg.fold = Bool(idx[2]),
                          \* kinds 5 / 6 name a proper prefix of the header as an exact (if-in-request / always) requirement:
@@ -828,6 +859,18 @@ BundleOf ==
                                    !.script.principal = 1000 + idx[4] * 100 + idx[5] * 10 + idx[10]]
             IN CASE idx[11] = 1 -> b2 [] idx[11] = 2 -> Inject(b2, 16, 1) [] idx[11] = 3 -> Inject(b2, 11, 1)
                  [] OTHER -> Inject(b2, 9, 2)
+      [] Family = "leak_cfg" ->
+            \* refusals and acceptances under server configurations that code may treat specially, logger on
+            LET b  == Bundle0(CarrierOf(idx[1]))
+                c  == LeakCfgs[idx[2]]
+                b2 == [b EXCEPT !.cfg.region = c[1], !.cfg.service = c[2], !.L.scope = [@ EXCEPT ![2] = c[1], ![3] = c[2]]]
+            IN CASE idx[3] = 1 -> b2 [] idx[3] = 2 -> Inject(b2, 16, 1) [] idx[3] = 3 -> Inject(b2, 16, 3)
+                 [] OTHER -> [b2 EXCEPT !.script.secret = Secret2]
+      [] Family = "leak_midnight" ->
+            LET b == Bundle0(CarrierOf(idx[1]))
+                m == MidnightCases[idx[2]]
+                b2 == [b EXCEPT !.L.ts = m[1], !.cfg.now = m[2], !.L.scope = [@ EXCEPT ![1] = m[3]]]
+            IN CASE idx[3] = 1 -> b2 [] idx[3] = 2 -> Inject(b2, 16, 1) [] OTHER -> [b2 EXCEPT !.script.secret = Secret2]
       [] Family = "expires" ->
             \* the window is fixed: an X-Amz-Expires parameter / header (signed, like any other) neither widens nor narrows it
             LET b   == Bundle0(CarrierOf(idx[1]))
